@@ -410,7 +410,8 @@ def set_iterations(fn_node, module_env=None):
             if isinstance(n, ast.Assign) and len(n.targets) == 1 and isinstance(n.targets[0], ast.Name):
                 k = _set_kind(n.value, env)
                 if k:
-                    env[n.targets[0].id] = k
+                    # flow-insensitive join: a name that holds a set of strings on one path is treated as one on all
+                    env[n.targets[0].id] = "str" if "str" in (k, env.get(n.targets[0].id)) else k
                 elif _strish_iterable(n.value, env):
                     env[n.targets[0].id] = "striter"
             elif isinstance(n, ast.AnnAssign) and isinstance(n.target, ast.Name):
